@@ -69,6 +69,12 @@ def main():
         if len(io) < len(sc) or any(a != b for a, b in cmp):
             ndiff += 1
             if first_diff is None or len(sc) < len(first_diff[0]): first_diff = (sc, io, mo)
+            # search for a concrete failing input: the same script in a second process (the statement: same streams in every run)
+            if sc and sc[0].startswith("SET") and first_pred is None:
+                r2 = vf.sh([drv], input="\n".join(l for l in sc if l.split()[0] in ("SET", "NEW", "GET")) + "\n", timeout=60)
+                io2 = r2[1].split("\n")[:len(sc)]
+                if [a for a, b in zip(io2, mo) if b != "?"] != [a for a, b in zip(io, mo) if b != "?"]:      # clock-derived answers (model '?') are not compared
+                    npred += 1; first_pred = (sc, "two processes that set the same global seed first hand out different local seeds: %s vs %s" % (io[:6], io2[:6]))
         # property predicate: local seeds in range; GET after an effective SET returns the seed
         for l, a in zip(sc, io):
             if l == "NEW" and not (a.isdigit() and 1 <= int(a) <= 10 ** 9):
